@@ -10,24 +10,56 @@ from pycaption.exceptions import CaptionLineLengthError
 from pycaption.scc.specialized_collections import PreCaption
 from pyvc import heap
 from pyvc.heap import SymList, SymRef, SymKey, SymDefaultDictOfLists, declare, loop_rule, SEQ, INT
-from pyvc.sym import cur
+from pyvc.sym import cur, Inapplicable, SInt
+from pyvc.interp import SymObject
 from refs import cea608 as C
 
 declare(PreCaption)
 
 
+class Line:
+    """one line of a caption's text, known by an identity; its length is LEN(identity)"""
+
+
+declare(Line)
+LEN = z3.Function("LINE_LENGTH", INT, INT)
+LINES = z3.Function("LINES_OF_CAPTION", INT, SEQ)
+# spec function: the lines of a sequence that are longer than 32 characters, in order (defined by its fold
+# equations, instantiated where the proof touches the sequence)
+LONG = z3.Function("LONGER_THAN_32", SEQ, SEQ)
+
+
+class AbsText(SymObject):
+    """the caption's text: only split("\\n") is meaningful - it yields the caption's lines"""
+
+    def __init__(self, lines):
+        self.lines = lines
+
+    def sym_getattr(self, interp, name):
+        if name == "split":
+            def split(sep=None, *rest):
+                if sep != "\n" or rest:
+                    raise Inapplicable("caption text split other than at line breaks")
+                return SymList(self.lines, Line)
+            return split
+        raise Inapplicable(f"str.{name} on the abstract caption text")
+
+
 def region_accumulation(c):
     """Region of SCCReader.read from `lines_too_long = defaultdict(list)` to the end of the scan loop.
-    The three statements that compute a caption's key (formatted start) and its list of over-long
-    lines are abstracted (KEY(c), TL(c): checked by the bounded part); what is proved, for any
-    number of captions, is the accumulation: afterwards, for EVERY key k, lines_too_long[k] is the
-    concatenation, in transmission order, of TL(c) over the captions with KEY(c) = k - nothing is
-    lost when captions share a start time, whatever their order."""
+    The two statements that compute a caption's key (formatted start) and its text are abstracted (KEY(c);
+    the text is known through its lines LINES(c) and their lengths: checked by the bounded part).  Proved, for
+    any number of captions with any number of lines: the comprehension selects exactly the lines LONGER THAN
+    32 characters, in order (inner loop invariant against the spec function LONG), and the accumulation:
+    afterwards, for EVERY key k, lines_too_long[k] is the concatenation, in transmission order, of
+    LONG(LINES(c)) over the captions with KEY(c) = k - nothing is lost when captions share a start time,
+    whatever their order."""
     p = cur()
     caps = SymList(z3.Const("caps", SEQ), PreCaption)
     n = z3.Length(caps.t)
     KEY = z3.Function("KEY", INT, INT)
-    TL = z3.Function("TL", INT, SEQ)
+    TL = lambda ref: LONG(LINES(ref))
+    p.assume(LONG(z3.Empty(SEQ)) == z3.Empty(SEQ))
     ACC = z3.Function("ACC", INT, INT, SEQ)
     k_ = z3.Int("any_key")       # an arbitrary key: a fresh constant stands for "for every key"
     p.assume(ACC(0, k_) == z3.Empty(SEQ))
@@ -48,12 +80,24 @@ def region_accumulation(c):
         return "skip"
 
     def h_text(interp, st, frame):
-        frame.locals["caption_text"] = None
+        frame.locals["caption_text"] = AbsText(LINES(frame.locals["caption"].ref))
         return "skip"
 
-    def h_long(interp, st, frame):
-        frame.locals["text_too_long"] = SymList(TL(frame.locals["caption"].ref), None)
-        return "skip"
+    old_len = c.interp.overrides[len]
+    c.interp.overrides[len] = lambda x: SInt(LEN(x.ref)) if isinstance(x, SymRef) and x.cls is Line else old_len(x)
+
+    def inv_lines(S):
+        """the comprehension over the lines of one caption: what was kept so far is LONG(lines seen so far)"""
+        lines = S.seq.t
+        pre, pre1 = z3.SubSeq(lines, 0, S.i), z3.SubSeq(lines, 0, S.i + 1)
+        x = lines[S.i]
+        S.p.assume(z3.Implies(S.i < S.n, z3.And(
+            pre1 == z3.Concat(pre, z3.Unit(x)),                                             # (sequence theory: prefix snoc)
+            LONG(pre1) == z3.If(LEN(x) > 32, z3.Concat(LONG(pre), z3.Unit(x)), LONG(pre)))))    # fold equation of LONG
+        S.p.assume(z3.SubSeq(lines, 0, S.n) == lines)
+        return [("kept_lines_are_the_lines_longer_than_32", heap.as_seq(S.local("__comp")) == LONG(pre))]
+    c.interp.loop_hooks[("pycaption.scc:SCCReader.read", ("comp", comp_ordinal()))] = loop_rule(
+        "long_lines.comp", inv_lines, locals_={"__comp": ("seq", Line)})
 
     def h_dict(interp, st, frame):
         frame.locals["lines_too_long"] = SymDefaultDictOfLists()
@@ -78,9 +122,21 @@ def region_accumulation(c):
         last=lambda st: isinstance(st, ast.For) and isinstance(st.iter, ast.Attribute) and st.iter.attr == "_collection",
         locals_={"self": reader},
         stmt_hooks=[(is_assign_to("caption_start"), h_start), (is_assign_to("caption_text"), h_text),
-                    (is_assign_to("text_too_long"), h_long), (is_assign_to("lines_too_long"), h_dict)])
+                    (is_assign_to("lines_too_long"), h_dict)])
     d = loc["lines_too_long"]
     c.ensure("no_long_line_is_lost_for_any_key", z3.Select(d.arr, k_) == ACC(n, k_))
+
+
+def comp_ordinal():
+    """position of the comprehension that selects the over-long lines among the list comprehensions of read()"""
+    from pyvc.interp import function_ast
+    node = function_ast(SCCReader.read)
+    comps = sorted((x for x in ast.walk(node) if isinstance(x, ast.ListComp)), key=lambda x: (x.lineno, x.col_offset))
+    for k, cp in enumerate(comps, 1):
+        it = cp.generators[0].iter
+        if isinstance(it, ast.Call) and isinstance(it.func, ast.Attribute) and it.func.attr == "split":
+            return k
+    return -1
 
 
 def scan_loop_ordinal():
@@ -103,8 +159,18 @@ def row_words(text):
     parts = text.split("~")
     ws = list(C.text_words(parts[0]))
     for part in parts[1:]:
-        ws += [C.midrow(True)] + list(C.text_words(part))
+        ws += [C.midrow(True)]
+        if part.startswith("_"):            # '_' right after it: a padding word (8080) before the text goes on
+            ws.append("8080")
+            part = part[1:]
+        ws += list(C.text_words(part))
     return ws
+
+
+def cells(t):
+    """columns a row occupies.  A mid-row code is one cell; where it is followed by a padding word ('~_') the count is
+    exact, otherwise such rows are chosen well above / below 32 and the cell is not counted"""
+    return len(t.replace("~", "").replace("_", "")) + (t.count("~") if "_" in t else 0)
 
 
 def popon(rows, tc):
@@ -176,6 +242,14 @@ def bounded(ctx, b):
         cases.append((mode, True, [[(5, "top"), (10, ""), (11, ROWS_TEXT[:34])]]))
         cases.append((mode, True, [[(10, ""), (11, ROWS_TEXT[:34]), (5, "top")]]))
         cases.append((mode, True, [[(5, "top"), (10, ""), (11, ROWS_TEXT[:30])]]))
+        # a mid-row code followed by a padding word keeps its cell: 20 + 1 + 12 = 33 columns, 20 + 1 + 11 = 32
+        cases.append((mode, True, [[(15, ROWS_TEXT[:20] + "~_" + ROWS_TEXT[:12])]]))
+        cases.append((mode, True, [[(15, ROWS_TEXT[:20] + "~_" + ROWS_TEXT[:11])]]))
+        cases.append((mode, True, [[(3, "top")], [(15, ROWS_TEXT[:20] + "~_" + ROWS_TEXT[:12])], [(15, "end")]]))
+        # a row of blanks only is a row like any other: it is not merged with the next row sent to the same address
+        cases.append((mode, True, [[(15, "  ")], [(15, ROWS_TEXT[:31])]]))
+        cases.append((mode, True, [[(15, ROWS_TEXT[:31])], [(15, "  ")], [(15, ROWS_TEXT[:31])]]))
+        cases.append((mode, False, [[(14, " ")], [(14, ROWS_TEXT[:32])], [(15, "   ")], [(15, ROWS_TEXT[:30])]]))
     for _ in range(100 if not ctx.thorough else 2000):
         mode = rng.choice(["pop", "roll", "paint"])
         sets = [[(r, ROWS_TEXT[:rng.choice(lens + [10, 20])]) for r in sorted(rng.sample([1, 3, 5, 7, 9, 11, 13, 15], rng.choice([1, 2, 3])))]
@@ -187,7 +261,7 @@ def bounded(ctx, b):
         texts = [t for rows in sets for _, t in rows if t]
         # (a mid-row code's cell may or may not be reproduced: such rows are chosen well above / below 32 either
         # way, and are not looked up by their exact text in the message)
-        longs = [t for t in texts if len(t.replace("~", "")) > 32]
+        longs = [t for t in texts if cells(t) > 32]
         named_exactly = [t for t in longs if "~" not in t]
 
         def one():
